@@ -199,6 +199,62 @@ def run(ctx, replay_case):
             if failures > 3:
                 break
     shapes["rejected input repeated (decodes)"] = nprobe
+    # verdicts are functions of the arguments too: an integer that is in range for one field type and out of range for another of
+    # the same width must be judged per type every time, whatever the process judged before (seeds C12i, C04i: a memo of validity
+    # verdicts keyed by the bare integer and shared between types of one width / one family).  Probe: take the integers of a
+    # well-formed message A, write one of them into a constrained field of another message B where it is out of range (B'), decode
+    # A, B', A, B' in this process, both modes, and compare every decode with the model's (a pure function of the arguments).
+    def _valid(pn, x):
+        pr = L["prims"][pn]
+        for it in pr["valid"]:
+            if it["k"] in ("range", "named") and it["lo"] <= x < it["hi"]:
+                return True
+            if it["k"] in ("member", "int") and it["v"] == x:
+                return True
+        return not pr["valid"]
+    npoison = 0
+    poison_ops = []
+    wf_lines = {}
+    for _ in range(60 if ctx.tier == "quick" else 600):
+        a_, b_ = rnd.sample(wfm, 2)
+        for c_ in (a_, b_):
+            if id(c_) not in wf_lines:
+                wf_lines[id(c_)] = canon.impl_dec("S", c_.tname, c_.cc, c_.enc, c_.data)
+        pa = msggen.value_field_positions(wf_lines[id(a_)], L)
+        pb = msggen.value_field_positions(wf_lines[id(b_)], L)
+        vals = {}
+        for off, w, path, pn in pa:
+            x = int.from_bytes(a_.data[off:off + w], "big", signed=L["prims"][pn]["signed"])
+            if _valid(pn, x):
+                vals.setdefault(w, []).append(x)
+        cands = [(off, w, path, pn, x) for off, w, path, pn in pb if L["prims"][pn]["valid"] and not L["prims"][pn]["signed"]
+                 for x in set(vals.get(w, [])) if x >= 0 and not _valid(pn, x)]
+        if not cands:
+            continue
+        off, w, path, pn, x = rnd.choice(cands)
+        bp = ds.Case(b_.tname, b_.cc, b_.enc, msggen.put(b_.data, off, w, x), "poisoned", None, {"field": path, "prim": pn, "value": x})
+        for mode in "SW":
+            poison_ops.append((mode, [a_, bp, a_, bp]))
+    want = core.run_model([core.op_line(c_.op(mode, "DEC")) for mode, seq in poison_ops for c_ in seq[:2]])
+    for k_, (mode, seq) in enumerate(poison_ops):
+        if failures > 3:
+            break
+        exp = [want[2 * k_], want[2 * k_ + 1]] * 2
+        for j_, c_ in enumerate(seq):
+            got = canon.impl_dec(mode, c_.tname, c_.cc, c_.enc, c_.data)
+            npoison += 1
+            if got != exp[j_]:
+                failures += 1
+                d_ = next((i for i, (x_, y_) in enumerate(zip(got, exp[j_])) if x_ != y_), min(len(got), len(exp[j_])))
+                ctx.violations.append({"kind": "concrete", "signature": "history:verdict-depends-on-earlier-decodes",
+                                       "what": f"history A,B',A,B' ({'strict' if mode == 'S' else 'warn'} mode; B' carries in {seq[1].meta['field']} "
+                                               f"({seq[1].meta['prim']}) the integer {seq[1].meta['value']} that is in range in a field of A): decode #{j_ + 1} "
+                                               f"differs from the decode of the same arguments by the model: "
+                                               f"'{(got[d_] if d_ < len(got) else 'end')[:140]}' vs '{(exp[j_][d_] if d_ < len(exp[j_]) else 'end')[:140]}'",
+                                       "replay": {"history": [(c2.tname, c2.cc, c2.enc, c2.data.hex(), mode) for c2 in seq], "shape": "A,B',A,B'",
+                                                  "how": "decode the four inputs in this order in one process"}})
+                break
+    shapes["verdict probes A,B',A,B' (decodes)"] = npoison
     for h in range(nh):
         kind = rnd.choice(["ABA", "ABA", "ABCA", "ABAB", "AxA", "interleaved2", "interleaved3", "stream",
                            "A,failed,A", "A,failed,A", "A,abandoned,A", "S,failed,S"])
